@@ -41,16 +41,21 @@ def run(res, tier, replay):
                 for f in c.folders: f.blocks = f.blocks
                 cabs, names = cabfmt.build_set(c.folders, c.cuts, rng)
                 paths = []
+                # half of the sets lie on disk under names that differ in case from the names in the headers, and are addressed by
+                # bare file name from inside their directory (cabextract looks neighbours up case-insensitively next to the cabinet)
+                bare = (i // 2) % 2 == 1
                 for cb, nm in zip(cabs, names):
-                    p = os.path.join(work, nm.decode()); open(p, "wb").write(cb); paths.append(p)
+                    p = os.path.join(work, nm.decode().swapcase() if bare else nm.decode()); open(p, "wb").write(cb); paths.append(p)
             else:
+                bare = False
                 p = os.path.join(work, "a.cab"); open(p, "wb").write(cabfmt.build_single(c.folders, rng, **c.kw)); paths = [p]
             members = c.members
             pat = rng.choice([None, "*.txt", "m1*", "*_a*", "M0*", "*"])
             sel = [m for m in members if pat is None or fnmatch.fnmatchcase(m.name.decode().lower(), pat.lower())]
             fopt = ["-F", pat] if pat else []
-            for start in (paths if isset else paths[:1]):
-                if isset and start != paths[0] and rng.random() < 0.5 and tier == "quick": continue
+            for start_path in (paths if isset else paths[:1]):
+                if isset and start_path != paths[0] and rng.random() < 0.5 and tier == "quick": continue
+                start = os.path.basename(start_path) if bare else start_path
                 detail = "cabinet files: %s\nstart: %s  pattern: %s\nmembers: %s" % ([os.path.basename(x) + "=" + open(x, "rb").read().hex()[:64] + "..." for x in paths], os.path.basename(start), pat, [(m.name, m.length, m.attribs) for m in members])
                 # the -d option in its spellings (none, plain, with a trailing slash): it only prefixes the names shown; the members selected,
                 # their order and their bytes do not depend on it
@@ -73,7 +78,7 @@ def run(res, tier, replay):
                 if r.stdout != b"".join(m.data for m in sel) or r.returncode != 0: bad("-p from %s wrote %d bytes, expected %d (exit %d)" % (os.path.basename(start), len(r.stdout), sum(len(m.data) for m in sel), r.returncode), detail, "c17:pipe")
                 # extract
                 um = rng.choice([0o022, 0o027, 0o077]); dest = os.path.join(work, "d%d" % nruns)
-                r = subprocess.run("umask %o && exec %s -q %s -d %s %s" % (um, exe, " ".join("'%s'" % x for x in fopt), dest + rng.choice(["", "/"]), start), shell=True, capture_output=True, env=env, timeout=120); nruns += 1
+                r = subprocess.run("cd %s && umask %o && exec %s -q %s -d %s %s" % (work, um, exe, " ".join("'%s'" % x for x in fopt), dest + rng.choice(["", "/"]), start), shell=True, capture_output=True, env=env, timeout=120); nruns += 1
                 created = sorted(os.listdir(dest)) if os.path.isdir(dest) else []
                 if created != sorted(m.name.decode() for m in sel) or r.returncode != 0: bad("extract from %s created %s, expected %s (exit %d)" % (os.path.basename(start), created[:4], sorted(m.name.decode() for m in sel)[:4], r.returncode), detail, "c17:extract-set")
                 else:
